@@ -431,6 +431,12 @@ impl<'a> AasmParser<'a> {
                     }
                     "ptr" => {
                         if let Token::Int(n) = self.advance()? {
+                            if !(0..=0xFFFF_FFFF_FFFF_i64).contains(&n) {
+                                return Err(AssemblerError::InvalidNumber(format!(
+                                    "{} (pointer must fit 48 bits)",
+                                    n
+                                )));
+                            }
                             Ok(Value::ptr(n as usize))
                         } else {
                             Err(AssemblerError::Expected {
@@ -443,6 +449,13 @@ impl<'a> AasmParser<'a> {
                         // func @N
                         self.expect(Token::At)?;
                         if let Token::Int(n) = self.advance()? {
+                            // @0 is main; nested functions are @1..
+                            if !(1..=u32::MAX as i64).contains(&n) {
+                                return Err(AssemblerError::InvalidNumber(format!(
+                                    "func @{} (nested functions are @1 and up)",
+                                    n
+                                )));
+                            }
                             // Encode as nested function marker (uses dedicated tag)
                             Ok(Value::nested_fn_marker((n - 1) as usize)) // -1 because main is @0
                         } else {
